@@ -159,3 +159,116 @@ def star_interior(et, pre_affine_coords):
         if ok:
             out.append(i)
     return out
+
+
+# ---------------------------------------------------------------- rank through a ring homomorphism into F_p
+
+def _is_probable_prime(n):
+    if n < 2:
+        return False
+    for q in (2, 3, 5, 7, 11, 13, 17, 19, 23, 29, 31, 37):
+        if n % q == 0:
+            return n == q
+    d, s = n - 1, 0
+    while d % 2 == 0:
+        d //= 2
+        s += 1
+    for a in (2, 3, 5, 7, 11, 13, 17, 19, 23, 29, 31, 37):
+        x = pow(a, d, n)
+        if x in (1, n - 1):
+            continue
+        for _ in range(s - 1):
+            x = x * x % n
+            if x == n - 1:
+                break
+        else:
+            return False
+    return True
+
+
+class ModMap:
+    """Ring homomorphism QQ[radicals of ctx] -> F_p (p = 3 mod 4, every radicand a quadratic residue)."""
+
+    def __init__(self, c, seed=0):
+        import random
+        self.c = c
+        rnd = random.Random(seed)
+        while True:
+            p = rnd.getrandbits(61) | (1 << 60) | 3
+            if p % 4 != 3 or not _is_probable_prime(p):
+                continue
+            vals = {}
+            ok = True
+            for idx in sorted(c.rel):
+                k = self._poly(c.rel[idx], vals, p)
+                if k is None or (k != 0 and pow(k, (p - 1) // 2, p) != 1):
+                    ok = False
+                    break
+                vals[idx] = pow(k, (p + 1) // 4, p)
+            if ok:
+                self.p, self.vals = p, vals
+                return
+
+    def _poly(self, poly, vals, p):
+        tot = 0
+        for mon, cf in poly.terms():
+            den = int(cf.denominator) % p
+            if den == 0:
+                return None
+            t = int(cf.numerator) % p * pow(den, -1, p) % p
+            for idx, e in enumerate(mon):
+                if e:
+                    if idx not in vals:
+                        return None
+                    t = t * pow(vals[idx], e, p) % p
+            tot = (tot + t) % p
+        return tot
+
+    def __call__(self, v):
+        p = self.p
+        if isinstance(v, X):
+            n = self._poly(v.v.numer, self.vals, p)
+            d = self._poly(v.v.denom, self.vals, p)
+            if n is None or d is None or d == 0:
+                raise ZeroDivisionError("unlucky prime")
+            return n * pow(d, -1, p) % p
+        v = Fraction(v)
+        d = v.denominator % p
+        if d == 0:
+            raise ZeroDivisionError("unlucky prime")
+        return v.numerator % p * pow(d, -1, p) % p
+
+
+def rank_mod(M, c, tries=3):
+    """Lower bound of the rank of M (entries Fraction / ground exact X) = rank of its image in F_p (max over a few primes).
+    Sound: a non-zero minor mod p is non-zero.  Equality with an independently proved upper bound is a proof of the rank."""
+    M = np.asarray(M)
+    best = -1
+    for t in range(tries):
+        try:
+            mm = ModMap(c, seed=t)
+            p = mm.p
+            A = [[mm(M[i, j]) for j in range(M.shape[1])] for i in range(M.shape[0])]
+        except ZeroDivisionError:
+            continue
+        nr, nc = len(A), len(A[0]) if A else 0
+        r = 0
+        for col in range(nc):
+            piv = next((i for i in range(r, nr) if A[i][col]), None)
+            if piv is None:
+                continue
+            A[r], A[piv] = A[piv], A[r]
+            inv = pow(A[r][col], -1, p)
+            rowr = A[r]
+            for i in range(r + 1, nr):
+                f = A[i][col] * inv % p
+                if f:
+                    Ai = A[i]
+                    A[i] = [(a - f * b) % p for a, b in zip(Ai, rowr)]
+            r += 1
+            if r == nr:
+                break
+        best = max(best, r)
+        if best == min(nr, nc):
+            break
+    return best
